@@ -35,7 +35,7 @@ EXPLANATION = 'theorems: the hand-off means exactly Feasible/value; per-instance
 
 
 def scenarios(seed, tier):
-    n = 240 if tier == 'quick' else 2500
+    n = 480 if tier == 'quick' else 2880
     rnd = random.Random(seed * 7919 + 3)
     for i in range(n):
         r2 = random.Random(rnd.getrandbits(48))
